@@ -66,6 +66,11 @@ type hTask struct {
 	Dep       int  // -1 or index of the dependency
 	SrcDep    bool // the dependency's generated file (whose content differs on every run of the dependency) is one of this task's sources
 	Pre       bool // precondition: fails while ctl/pre-<id> exists
+	Gen2      bool // a second generates entry (out/<id>.gen2): every entry has to exist
+	// a parametrised task: one Taskfile task "tK" with label 'plab-{{.MOD}}' and sources 'src/{{.MOD}}.txt', always
+	// called with MOD=a or MOD=b; the model treats the two parametrisations as two tasks (IDs tK-a, tK-b)
+	Param    string // "", "a", "b"
+	NoRender bool   // the second parametrisation: the Taskfile task is rendered for the first one
 }
 
 type hProj struct {
@@ -134,6 +139,7 @@ func genHProj(ch *vs.Choices, prop string) *hProj {
 		}
 		t.Pre = (ch.Bool(1, 4) || (prop == "C13" && ch.Bool(2, 3))) && !t.Dir // (a precondition runs in the task's dir, which must exist)
 		t.SrcDep = ch.Bool(1, 2)
+		t.Gen2 = t.Generates && ch.Bool(1, 3)
 		p.Tasks = append(p.Tasks, t)
 	}
 	for _, t := range p.Tasks {
@@ -153,6 +159,22 @@ func genHProj(ch *vs.Choices, prop string) *hProj {
 		p.Tasks[0].Label, p.Tasks[1].Label = "", ""
 		p.Tasks[1].Sources = p.Tasks[0].Sources
 		p.Tasks[1].SrcDep = false
+	} else if t0 := p.Tasks[0]; !t0.Inc && ch.Bool(1, 4) {
+		// parametrised task (templated label and sources): the two parametrisations keep separate records
+		for _, t := range p.Tasks {
+			if t.Dep == 0 {
+				if t.SrcDep {
+					t.Sources = t.Sources[:len(t.Sources)-1]
+				}
+				t.Dep, t.SrcDep = -1, false
+			}
+		}
+		t0.Param, t0.ID, t0.Label, t0.Dir, t0.Call, t0.Dep, t0.SrcDep = "a", t0.ID+"-a", "plab-a", false, false, -1, false
+		t0.Sources = []hGlob{{Pat: "src/a.txt"}}
+		tb := *t0
+		tb.Param, tb.ID, tb.Label, tb.NoRender = "b", strings.TrimSuffix(t0.ID, "-a")+"-b", "plab-b", true
+		tb.Sources = []hGlob{{Pat: "src/b.txt"}}
+		p.Tasks = append(p.Tasks, &tb)
 	}
 	return p
 }
@@ -187,6 +209,10 @@ func (p *hProj) Files() map[string]string {
 	// helpers: a task that always fails and wrappers that run a fingerprinted task next to it
 	sb.WriteString("  boom:\n    desc: always fails\n    cmds:\n      - exit 9\n")
 	for _, t := range p.Tasks {
+		if t.Param != "" {
+			fmt.Fprintf(&sb, "  both-%s:\n    desc: wrapper\n    deps:\n      - task: %s\n        vars: {MOD: %s}\n      - boom\n", t.ID, yqH(t.Name), t.Param)
+			continue
+		}
 		fmt.Fprintf(&sb, "  both-%s:\n    desc: wrapper\n    deps: [%s, boom]\n", t.ID, yqH(t.Name))
 	}
 	m := map[string]string{"Taskfile.yml": sb.String()}
@@ -213,28 +239,39 @@ func (p *hProj) YAML() string {
 }
 
 func (p *hProj) renderTask(sb *strings.Builder, t *hTask) {
+	if t.NoRender {
+		return
+	}
 	key := t.Name
+	id := t.ID // as it appears in the Taskfile
+	if t.Param != "" {
+		id = strings.TrimSuffix(t.ID, "-"+t.Param) + "-{{.MOD}}"
+	}
 	if t.Inc {
 		key = t.ID // local name inside the included file; callable as inc:<id>
 	}
-	fmt.Fprintf(sb, "  %s:\n    desc: task %s\n", yqH(key), t.ID)
+	fmt.Fprintf(sb, "  %s:\n    desc: task %s\n", yqH(key), t.Name)
 	if t.Label != "" {
-		fmt.Fprintf(sb, "    label: %s\n", t.Label)
+		if t.Param != "" {
+			sb.WriteString("    label: 'plab-{{.MOD}}'\n")
+		} else {
+			fmt.Fprintf(sb, "    label: %s\n", t.Label)
+		}
 	}
 	if t.Method != "" {
 		fmt.Fprintf(sb, "    method: %s\n", t.Method)
 	}
 	if t.Prompt {
-		fmt.Fprintf(sb, "    prompt: PROMPT-%s\n", t.ID)
+		fmt.Fprintf(sb, "    prompt: PROMPT-%s\n", id)
 	}
 	pre := ""
 	if t.Dir {
 		// the task runs in its own (initially missing) directory; everything is addressed from the root
-		fmt.Fprintf(sb, "    dir: work/%s\n", t.ID)
+		fmt.Fprintf(sb, "    dir: work/%s\n", id)
 		pre = "{{.ROOT_DIR}}/"
 	}
 	if t.ShVar {
-		fmt.Fprintf(sb, "    vars:\n      SV:\n        sh: echo sv-%s\n", t.ID)
+		fmt.Fprintf(sb, "    vars:\n      SV:\n        sh: echo sv-%s\n", id)
 	}
 	if t.Dep >= 0 {
 		d := p.Tasks[t.Dep]
@@ -245,7 +282,11 @@ func (p *hProj) renderTask(sb *strings.Builder, t *hTask) {
 		fmt.Fprintf(sb, "    deps: [%s]\n", yqH(dn))
 	}
 	sb.WriteString("    sources:\n")
-	for _, g := range t.Sources {
+	srcs := t.Sources
+	if t.Param != "" {
+		srcs = []hGlob{{Pat: "src/{{.MOD}}.txt"}}
+	}
+	for _, g := range srcs {
 		if g.Exclude {
 			fmt.Fprintf(sb, "      - exclude: %s\n", yqH(pre+g.Pat))
 		} else {
@@ -253,26 +294,32 @@ func (p *hProj) renderTask(sb *strings.Builder, t *hTask) {
 		}
 	}
 	if t.Generates {
-		fmt.Fprintf(sb, "    generates:\n      - %s\n", yqH(pre+"out/"+t.ID+".gen"))
+		fmt.Fprintf(sb, "    generates:\n      - %s\n", yqH(pre+"out/"+id+".gen"))
+		if t.Gen2 {
+			fmt.Fprintf(sb, "      - %s\n", yqH(pre+"out/"+id+".gen2"))
+		}
 	}
 	if t.Status {
-		fmt.Fprintf(sb, "    status:\n      - %s\n", yqH("test -f "+pre+"ctl/status-"+t.ID))
+		fmt.Fprintf(sb, "    status:\n      - %s\n", yqH("test -f "+pre+"ctl/status-"+id))
 	}
 	if t.Pre {
-		fmt.Fprintf(sb, "    preconditions:\n      - sh: %s\n        msg: precondition of %s refused\n", yqH("test ! -f "+pre+"ctl/pre-"+t.ID), t.ID)
+		fmt.Fprintf(sb, "    preconditions:\n      - sh: %s\n        msg: precondition of %s refused\n", yqH("test ! -f "+pre+"ctl/pre-"+id), id)
 	}
 	sb.WriteString("    cmds:\n")
-	fmt.Fprintf(sb, "      - %s\n", yqH("echo b:"+t.ID+" >> "+pre+"trace.log"))
-	fmt.Fprintf(sb, "      - %s\n", yqH("test ! -f "+pre+"ctl/fail-"+t.ID+"-1"))
+	fmt.Fprintf(sb, "      - %s\n", yqH("echo b:"+id+" >> "+pre+"trace.log"))
+	fmt.Fprintf(sb, "      - %s\n", yqH("test ! -f "+pre+"ctl/fail-"+id+"-1"))
 	if t.Call {
-		fmt.Fprintf(sb, "      - task: chk-%s\n", t.ID)
+		fmt.Fprintf(sb, "      - task: chk-%s\n", id)
 	}
 	if t.Generates {
 		// the generated content differs on every run (number of trace lines so far; shell builtins only)
-		fmt.Fprintf(sb, "      - %s\n", yqH("n=0; while read l; do n=$((n+1)); done < "+pre+"trace.log; echo generated-$n > "+pre+"out/"+t.ID+".gen"))
+		fmt.Fprintf(sb, "      - %s\n", yqH("n=0; while read l; do n=$((n+1)); done < "+pre+"trace.log; echo generated-$n > "+pre+"out/"+id+".gen"))
 	}
-	fmt.Fprintf(sb, "      - %s\n", yqH("test ! -f "+pre+"ctl/fail-"+t.ID+"-2"))
-	fmt.Fprintf(sb, "      - %s\n", yqH("echo e:"+t.ID+" >> "+pre+"trace.log"))
+	if t.Gen2 {
+		fmt.Fprintf(sb, "      - %s\n", yqH("echo second > "+pre+"out/"+id+".gen2"))
+	}
+	fmt.Fprintf(sb, "      - %s\n", yqH("test ! -f "+pre+"ctl/fail-"+id+"-2"))
+	fmt.Fprintf(sb, "      - %s\n", yqH("echo e:"+id+" >> "+pre+"trace.log"))
 }
 
 func yqH(s string) string { return "'" + strings.ReplaceAll(s, "'", "''") + "'" }
@@ -451,8 +498,19 @@ func genHistory(ch *vs.Choices, p *hProj, prop, tier string) []hStep {
 		"C12": {"run", "run-yes", "dry", "status", "list", "list-all", "list-json", "list-all-json", "list-json-nostatus", "summary", "op:edit", "op:edit", "op:fail", "op:failcall", "op:failcall", "op:clearfail", "op:delgen", "dry", "dry", "status"},
 	}[prop]
 	advs := []time.Duration{time.Second, time.Second, 2 * time.Second, time.Minute, time.Hour, 48 * time.Hour, 20 * time.Millisecond, 300 * time.Millisecond}
+	// histories dwell on a task: a step concerns the task of the previous step two times out of three, and half
+	// of the histories begin by running their first task (so that there is a recorded fingerprint to get wrong)
+	startClean := ch.Bool(1, 2)
+	prevTask := -1
 	for i := 0; i < n; i++ {
 		s := hStep{Kind: weights[ch.Draw(len(weights))], Task: ch.Draw(len(p.Tasks)), Adv: advs[ch.Draw(len(advs))]}
+		if prevTask >= 0 && ch.Bool(2, 3) {
+			s.Task = prevTask
+		}
+		if i == 0 && startClean {
+			s.Kind = "run-yes"
+		}
+		prevTask = s.Task
 		switch s.Kind {
 		case "op:edit", "op:append", "op:touch", "op:remove", "op:rename":
 			s.File = hInitialFiles[ch.Draw(len(hInitialFiles)-1)]
@@ -462,7 +520,7 @@ func genHistory(ch *vs.Choices, p *hProj, prop, tier string) []hStep {
 			s.File = fmt.Sprintf(s.File, i)
 		case "op:edit-unmatched":
 			s.File = "other/z.txt"
-		case "op:fail":
+		case "op:fail", "op:delgen":
 			s.Fail = 1 + ch.Draw(2)
 		case "crash-cmd":
 			s.CrashN = 1 + ch.Draw(6)
@@ -483,7 +541,9 @@ func (s hStep) String(p *hProj) string {
 			return fmt.Sprintf("+%v %s %s -> %s", s.Adv, s.Kind, s.File, s.New)
 		case "op:fail":
 			return fmt.Sprintf("+%v %s %s cmd %d", s.Adv, s.Kind, t.ID, s.Fail)
-		case "op:clearfail", "op:delgen", "op:status", "op:failcall", "op:prefail":
+		case "op:delgen":
+			return fmt.Sprintf("+%v %s %s #%d", s.Adv, s.Kind, t.ID, s.Fail)
+		case "op:clearfail", "op:status", "op:failcall", "op:prefail":
 			return fmt.Sprintf("+%v %s %s", s.Adv, s.Kind, t.ID)
 		}
 		return fmt.Sprintf("+%v %s %s", s.Adv, s.Kind, s.File)
@@ -494,6 +554,14 @@ func (s hStep) String(p *hProj) string {
 }
 
 func (s hStep) argv(p *hProj, dir string) []string {
+	a := s.argv0(p, dir)
+	if t := p.Tasks[s.Task]; t.Param != "" && s.Kind != "both" && !strings.HasPrefix(s.Kind, "list") {
+		a = append(a, "MOD="+t.Param)
+	}
+	return a
+}
+
+func (s hStep) argv0(p *hProj, dir string) []string {
 	t := p.Tasks[s.Task]
 	a := []string{"-d", dir}
 	switch s.Kind {
@@ -848,7 +916,11 @@ func runHOne(t *testing.T, ch *vs.Choices, prop string, render bool, p *hProj, h
 							_ = os.Rename(full, filepath.Join(dir, s.New)) // keeps the mtime, like mv
 						}
 					case "op:delgen":
-						_ = os.Remove(filepath.Join(dir, "out", tk.ID+".gen"))
+						if tk.Gen2 && s.Fail == 2 {
+							_ = os.Remove(filepath.Join(dir, "out", tk.ID+".gen2")) // only one of the two generated files goes
+						} else {
+							_ = os.Remove(filepath.Join(dir, "out", tk.ID+".gen"))
+						}
 					case "op:status":
 						sp := filepath.Join(dir, "ctl", "status-"+tk.ID)
 						if _, err := os.Stat(sp); err == nil {
@@ -893,6 +965,9 @@ func runHOne(t *testing.T, ch *vs.Choices, prop string, render bool, p *hProj, h
 				for _, ti := range chain {
 					x := p.Tasks[ti]
 					_, genErr := os.Stat(filepath.Join(dir, "out", x.ID+".gen"))
+					if x.Gen2 && genErr == nil {
+						_, genErr = os.Stat(filepath.Join(dir, "out", x.ID+".gen2"))
+					}
 					_, stErr := os.Stat(filepath.Join(dir, "ctl", "status-"+x.ID))
 					_, preErr := os.Stat(filepath.Join(dir, "ctl", "pre-"+x.ID))
 					genMissing[ti], statusFails[ti], preFails[ti] = x.Generates && genErr != nil, x.Status && stErr != nil, x.Pre && preErr == nil
